@@ -373,6 +373,90 @@ fn build(
     Some((vk, stmts, proof, hash))
 }
 
+fn decode_elem<H: midnight_proofs::transcript::TranscriptHash>(
+    bytes: &[u8],
+    g1: bool,
+    plan: &crate::core::fio::IoPlan,
+) -> Result<Vec<u8>, String>
+where
+    midnight_curves::G1Projective: midnight_proofs::transcript::Hashable<H>,
+    Fq: midnight_proofs::transcript::Hashable<H>,
+{
+    use midnight_proofs::transcript::Hashable;
+    let mut r = crate::core::fio::FaultyReader::new(bytes, plan);
+    if g1 {
+        <midnight_curves::G1Projective as Hashable<H>>::read(&mut r)
+            .map(|p| <midnight_curves::G1Projective as Hashable<H>>::to_bytes(&p))
+            .map_err(|e| e.to_string())
+    } else {
+        <Fq as Hashable<H>>::read(&mut r)
+            .map(|p| <Fq as Hashable<H>>::to_bytes(&p))
+            .map_err(|e| e.to_string())
+    }
+}
+
+fn element_decoders_under_io_faults(
+    proof: &[u8],
+    lay: &[(usize, usize, bool)],
+    hash: HashKind,
+    seed: u64,
+    st: &mut Stats,
+) -> Option<Viol> {
+    use crate::core::fio::IoPlan;
+    let dec = |bytes: &[u8], g1: bool, plan: &IoPlan| match hash {
+        HashKind::Blake2b => decode_elem::<blake2b_simd::State>(bytes, g1, plan),
+        HashKind::Poseidon => {
+            decode_elem::<midnight_circuits::hash::poseidon::PoseidonState<Fq>>(bytes, g1, plan)
+        }
+    };
+    let mut rng = Prng::new(seed, "elem-io");
+    for (i, (off, len, g1)) in lay.iter().enumerate() {
+        let bytes = &proof[*off..off + len];
+        let clean = dec(bytes, *g1, &IoPlan::clean());
+        let plan = IoPlan { seed: rng.u64(), short: true, interrupt_16: 4, fail_at: None };
+        st.fault("element-short-read");
+        let r = match catch(|| dec(bytes, *g1, &plan)) {
+            Ok(r) => r,
+            Err(p) => {
+                return Some(Viol::new(
+                    "DecoderPanic",
+                    format!("DecoderPanic@{}", p.site_file()),
+                    format!("element {i} decoder panicked under short reads at {}: {}", p.site(), p.msg),
+                ))
+            }
+        };
+        if r != clean {
+            return Some(Viol::new(
+                "ShortReadChangedValue",
+                format!("ShortReadChangedValue:{}", if *g1 { "g1" } else { "scalar" }),
+                format!("proof element {i} decodes to {clean:?} from a well-behaved reader but to {r:?} when the reader returns short reads / EINTR"),
+            ));
+        }
+        // EOF inside the element (sampled cut, plus the last byte)
+        for cut in [len - 1, rng.usize(*len)] {
+            st.fault("element-eof-inside");
+            match catch(|| dec(&bytes[..cut], *g1, &IoPlan::clean())) {
+                Ok(Err(_)) => {}
+                Ok(Ok(_)) => {
+                    return Some(Viol::new(
+                        "TruncatedElementAccepted",
+                        format!("TruncatedElementAccepted:{}", if *g1 { "g1" } else { "scalar" }),
+                        format!("proof element {i} ({len} bytes) decoded successfully from only {cut} bytes"),
+                    ))
+                }
+                Err(p) => {
+                    return Some(Viol::new(
+                        "DecoderPanic",
+                        format!("DecoderPanic@{}", p.site_file()),
+                        format!("element {i} decoder panicked on EOF at {}: {}", p.site(), p.msg),
+                    ))
+                }
+            }
+        }
+    }
+    None
+}
+
 fn same_statement(a: &[Statement], b: &[Statement]) -> bool {
     a.len() == b.len()
         && a.iter().zip(b).all(|(x, y)| x.plain == y.plain && x.committed == y.committed)
@@ -422,6 +506,8 @@ impl Check for C03 {
                 "vk-other-circuit",
                 "wrong-transcript-hash",
                 "final_honest_delivery_accepted",
+                "element-short-read",
+                "element-eof-inside",
             ],
         }
     }
@@ -487,6 +573,15 @@ fn run(s: &Scn, st: &mut Stats) -> Verdict {
             gen_deliveries(&mut rng, &lay, proof.len(), &stmts, s.enumerate)
         }
     };
+    // storage seam below the transcript: every element decoder, fed the
+    // element's bytes through a reader with short reads / EINTR, must return
+    // the same value, and fed a reader that hits EOF inside the element must
+    // return an error (never a value made from fewer bytes).
+    if s.only.is_none() {
+        if let Some(v) = element_decoders_under_io_faults(&proof, &lay, b.hash, s.fault_seed, st) {
+            return Verdict::Violation(v);
+        }
+    }
     let cx = Ctx { base: b, vk: &vk, proof: &proof, lay: &lay, stmts: &stmts };
     let spec_digest = prng::digest(serde_json::to_string(&b.spec).unwrap().as_bytes());
     b.sched_verify.enter();
